@@ -1046,6 +1046,10 @@ fn wire_run_addr_history(case: &Value) -> crate::netrun::CaseResult {
     let h = w.rt.spawn(svc.clone().run());
     w.pump(6);
     let events: Vec<String> = case["events"].as_array().cloned().unwrap_or_default().iter().filter_map(|e| e.as_str().map(|s| s.to_string())).collect();
+    let mut mon = match NlMonitor::open() {
+        Ok(m) => m,
+        Err(e) => return CaseResult::machinery(e),
+    };
     let mut present = [true, false, false];
     let mut judged = 0u64;
     // step 0 = before any change, then after every event
@@ -1054,7 +1058,7 @@ fn wire_run_addr_history(case: &Value) -> crate::netrun::CaseResult {
             let ev = &events[step - 1];
             let (add, tag) = if let Some(t) = ev.strip_prefix("add") { (true, t) } else { (false, ev.strip_prefix("del").unwrap_or("")) };
             let Some(i) = HIST_ADDRS.iter().position(|a| a.0 == tag) else { return CaseResult::machinery(format!("unknown event {ev}")) };
-            let r = if add { addr6_add(HIST_ADDRS[i].1, HIST_ADDRS[i].2) } else { addr6_del(HIST_ADDRS[i].1, HIST_ADDRS[i].2) };
+            let r = if add { addr6_add(&mut mon, HIST_ADDRS[i].1, HIST_ADDRS[i].2) } else { addr6_del(&mut mon, HIST_ADDRS[i].1, HIST_ADDRS[i].2) };
             if let Err(e) = r {
                 return CaseResult::machinery(format!("event {ev}: {e}"));
             }
